@@ -154,7 +154,7 @@ def check_property(pid: str, spec: dict, root: str, tier: str, seed: int,
             continue
         hit = None
         for k in known_open:
-            if k.get("rule") == o.rule and k.get("function") == o.func and \
+            if k.get("rule") == o.rule and k.get("function", "").split("#")[0] == o.func.split("#")[0] and \
                     " ".join(k.get("construct", "").split()) == " ".join(o.construct.split()):
                 hit = k
         if hit is not None:
